@@ -108,7 +108,7 @@ def run_native(dh, prop, tier, seed, out_dir, budget_s, procs, proc_ms, families
             if os.path.exists(out): os.remove(out)
             fam = families[k % len(families)]
             pseed = seed * 1000003 + k + (0 if not tool else 500009 * (1 + ['asan', 'asan-nohooks', 'tsan', 'memcheck'].index(tool)))
-            cmd = (wrapper or []) + [dh, '--profile', prop, '--seed', str(pseed), '--budget-ms', str(ms), '--noise', fam, '--out', out, '--watchdog-s', '60']
+            cmd = (wrapper or []) + [dh, '--profile', prop, '--seed', str(pseed), '--budget-ms', str(ms), '--noise', fam, '--out', out, '--watchdog-s', '60'] + sanit.known_args()
             if extra: cmd += extra
             errf = open(os.path.join(out_dir, '%s%04d.stderr.txt' % (prefix, k)), 'w') if tool else subprocess.STDOUT
             p = subprocess.Popen(cmd, stdout=subprocess.PIPE, stderr=errf, text=True, env=env)
@@ -173,7 +173,7 @@ def run_sweep(dh, prop, seed, out_dir, budget_s, procs):
         while len(running) < procs and queue and time.time() < t_end:
             site, kind, hits = queue.pop(0)
             out = os.path.join(out_dir, 's%04d.json' % k)
-            cmd = [dh, '--profile', prop, '--seed', str(seed * 7001 + k), '--budget-ms', str(per), '--noise', 'targeted', '--target', '%s:%d' % (site.replace('0x', ''), kind), '--out', out, '--watchdog-s', '60']
+            cmd = [dh, '--profile', prop, '--seed', str(seed * 7001 + k), '--budget-ms', str(per), '--noise', 'targeted', '--target', '%s:%d' % (site.replace('0x', ''), kind), '--out', out, '--watchdog-s', '60'] + sanit.known_args()
             p = subprocess.Popen(cmd, stdout=subprocess.PIPE, stderr=subprocess.STDOUT, text=True)
             running[p.pid] = (p, out, time.time(), k)
             k += 1
@@ -255,9 +255,12 @@ def finish(prop, tier, seed, t0, m, extra_cov, inconclusive, engine_notes):
     log('%s %s: %d program runs, %d non-trivial (%d distinct), %d stuck, %d inconclusive, %.0f s' % (prop, tier, m['evaluations'], m['nontrivial_runs'], len(m['hashes']), m['stuck'], cov['inconclusive_runs'], ev['wall_s']))
     for v in foreign[:5]:
         log('note: violation of another property seen on the way (reported by its own check): %s %s %s' % (v['property'], v['kind'], v['signature']))
+    by_entry = {}
     for sig, v in listed.items():
         k = known_match(known, prop, sig)
-        print('KNOWN-FINDING: property=%s %s [%s]' % (prop, k.get('what', v['kind']), sig), flush=True)
+        by_entry.setdefault(id(k), (k, []))[1].append(sig)
+    for k, sigs in by_entry.values():
+        print('KNOWN-FINDING: property=%s %s [observed: %s]' % (prop, k.get('what', ''), ', '.join(sorted(sigs))), flush=True)
     if replays:
         for path, v in replays:
             log('%s: %s' % (v['kind'], v['detail'][:400]))
